@@ -33,7 +33,8 @@ pub enum NStep {
     HttpReg { svc: u8, ip: u8, eph: u8, enabled: u8, weight: u8, #[serde(default)] meta: u8, #[serde(default)] method: u8 },
     /// gRPC BatchInstanceRequest of one connection: several addresses of one service registered / deregistered at once
     GrpcBatch { conn: u8, svc: u8, ips: Vec<u8>, dereg: bool },
-    HttpBeat { svc: u8, ip: u8 },
+    /// eph: 0 no `ephemeral` parameter, 1 ephemeral=true, 2 ephemeral=false (a beat never changes the kind of an existing instance)
+    HttpBeat { svc: u8, ip: u8, #[serde(default)] eph: u8 },
     HttpDereg { svc: u8, ip: u8, eph: u8 },
     GrpcReg { conn: u8, svc: u8, ip: u8, eph: bool, enabled: bool, weight: u8 },
     GrpcDereg { conn: u8, svc: u8, ip: u8, eph: bool },
@@ -184,10 +185,19 @@ pub async fn exec_naming(id: &'static str, script: Value) -> ExecResult {
                         }
                     }
                 }
-                NStep::HttpBeat { svc, ip } => {
+                NStep::HttpBeat { svc, ip, eph } => {
                     let (s, a) = (*svc % 3, *ip % 4);
                     let beat = json!({"ip": ip_of(a), "port": 8080, "serviceName": format!("{}@@{}", GROUP, SVCS[s as usize]), "cluster": "DEFAULT", "weight": 1.0, "metadata": {}});
-                    let q = format!("serviceName={}&namespaceId={}&groupName={}&ip={}&port=8080&beat={}", urlencode(&format!("{}@@{}", GROUP, SVCS[s as usize])), NS, GROUP, ip_of(a), urlencode(&beat.to_string()));
+                    let mut q = format!("serviceName={}&namespaceId={}&groupName={}&ip={}&port=8080&beat={}", urlencode(&format!("{}@@{}", GROUP, SVCS[s as usize])), NS, GROUP, ip_of(a), urlencode(&beat.to_string()));
+                    if *eph > 0 {
+                        q.push_str(&format!("&ephemeral={}", *eph == 1));
+                        sim::count("probe.beat_with_ephemeral_parameter", 1);
+                    }
+                    // an instance that has already expired (the observation after the previous step has judged whether it
+                    // was allowed to) is registered anew by the beat, with the kind the beat names
+                    if m.contains_key(&(s, a)) && !all_instances(&n, s).await.map(|l| l.iter().any(|x| x.ip.as_str() == ip_of(a))).unwrap_or(true) {
+                        m.remove(&(s, a));
+                    }
                     let resp = call(&app, "PUT", &format!("/nacos/v1/ns/instance/beat?{}", q), &[], None).await;
                     vensure!(resp.status == 200, &format!("{}.beat_failed", id), "step {}: beat answered {} {}", i, resp.status, resp.text());
                     match m.get_mut(&(s, a)) {
@@ -195,8 +205,8 @@ pub async fn exec_naming(id: &'static str, script: Value) -> ExecResult {
                             e.last_beat_us = now;
                         }
                         None => {
-                            // a beat for an unknown instance registers it (ephemeral, enabled)
-                            m.insert((s, a), MInst { ephemeral: true, enabled: true, weight: 1.0, owner: Owner::Http, last_beat_us: now, fuzzy: true, unsure: false, probe_failed: false });
+                            // a beat for an unknown instance registers it (enabled; ephemeral unless the beat says otherwise)
+                            m.insert((s, a), MInst { ephemeral: *eph != 2, enabled: true, weight: 1.0, owner: Owner::Http, last_beat_us: now, fuzzy: true, unsure: false, probe_failed: false });
                         }
                     }
                 }
@@ -649,7 +659,7 @@ fn gen_nsteps(rng: &mut Rng, n: u64, bias: &str) -> Vec<NStep> {
                 if r < 25 {
                     NStep::HttpReg { svc, ip, eph: *rng.pick(&[0u8, 0, 1, 2]), enabled: 0, weight: 0, meta: 0, method: 0 }
                 } else if r < 55 {
-                    NStep::HttpBeat { svc, ip }
+                    NStep::HttpBeat { svc, ip, eph: *rng.pick(&[0u8, 0, 0, 1, 2]) }
                 } else if r < 62 {
                     NStep::GrpcReg { conn: rng.below(3) as u8, svc, ip, eph: true, enabled: true, weight: 0 }
                 } else if r < 68 {
@@ -662,7 +672,7 @@ fn gen_nsteps(rng: &mut Rng, n: u64, bias: &str) -> Vec<NStep> {
                 if r < 22 {
                     NStep::HttpReg { svc, ip, eph: *rng.pick(&[0u8, 0, 1, 2]), enabled: *rng.pick(&[0u8, 0, 1, 2]), weight: *rng.pick(&[0u8, 0, 1, 3]), meta: *rng.pick(&[0u8, 0, 0, 1, 2]), method: *rng.pick(&[0u8, 0, 1, 2]) }
                 } else if r < 30 {
-                    NStep::HttpBeat { svc, ip }
+                    NStep::HttpBeat { svc, ip, eph: *rng.pick(&[0u8, 0, 1, 2]) }
                 } else if r < 38 {
                     NStep::HttpDereg { svc, ip, eph: *rng.pick(&[0u8, 1, 2]) }
                 } else if r < 62 {
